@@ -1509,8 +1509,39 @@ func (c *Ctx) checkAsyncOptIn(r *Report, ro *Roles) {
 				return true
 			}
 			found := guarded(in, f, map[*ssa.Function]bool{})
+			// a logger type without an `async` attribute has no synchronous mode to promise: choosing the type is the opt-in
+			owner := recvNamed(f)
+			if owner == nil && f.Parent() != nil {
+				owner = recvNamed(f.Parent())
+			}
+			declaresAsync := func(t *types.Named) bool {
+				var walk func(st *types.Struct) bool
+				walk = func(st *types.Struct) bool {
+					for i := 0; i < st.NumFields(); i++ {
+						if tag, ok := lookupTag(st.Tag(i), "PluginAttribute"); ok {
+							if name, _, _ := strings.Cut(tag, ","); name == "async" {
+								return true
+							}
+						}
+						if sub, ok := st.Field(i).Type().Underlying().(*types.Struct); ok && st.Field(i).Embedded() && walk(sub) {
+							return true
+						}
+					}
+					return false
+				}
+				st, ok := t.Underlying().(*types.Struct)
+				return ok && walk(st)
+			}
+			isLogger := false
+			for _, l := range ro.Loggers {
+				if owner != nil && l == owner {
+					isLogger = true
+				}
+			}
 			if found {
 				r.OK(key, "the asynchronous logger is constructed only where the `async` attribute is set")
+			} else if isLogger && !declaresAsync(owner) {
+				r.OK(key, "%s is a logger type of its own without an `async` attribute: it has no synchronous mode, configuring this type is the opt-in to buffering", owner.Obj().Name())
 			} else {
 				r.Fail(key, c.instrPos(in), "an asynchronous (buffering) logger is constructed on a path that is not selected by the `async` attribute: a logger configured as synchronous would acknowledge lines that only sit in a channel buffer")
 			}
